@@ -19,7 +19,8 @@ Proved for all strings and all numbers (no bounds):
   VersionUnion`, through C05's `union_allows_total`, `unionOfFlat_reg`, `VC.intersect_reg`), environment values the
   texts `X'.Y'…`; plus token-level statements for finals of any length;
 * their composition for every marker text (`parse_eval_agree`, `parse_eval_agree_full`).
-Open: coherence of `_compact_markers` for ARBITRARY items (`marker_coherent_full_statement`; proved on the domain).
+Open: coherence of `_compact_markers` for every PARSED text (`marker_coherent_full_statement`; proved on the
+domain; false for operators outside the grammar: `counterexample_coherence_arbitrary_op`).
 Where the agreement is FALSE of model and code (outside the domain): concrete witnesses (`counterexample_*`).
 -/
 import PoetryVerif.Proofs.MarkerEval
@@ -481,17 +482,35 @@ theorem parse_eval_agree (E : Env) (t : String) (syn : Syn) (hp : parseText t = 
   obtain ⟨b, h1, h2⟩ := compact_agree_spec E syn m hm hc ha
   exact ⟨m, b, hm, (compact_agree E syn m hm hc).1, h1, h2⟩
 
-/-- **coherence at full strength** (also wanted by C18): every marker `_compact_markers` builds is coherent — each
-`SingleMarker` holds the constraint its own name/operator/value/operand order denote, so that `__eq__`
-(which ignores the constraint object) never identifies leaves that validate differently.  Open in general: it
-needs the parsers' insensitivity to the white space `_CONSTRAINT_RE_PATTERN_1` drops between operator and
-value (`"== x"` vs `"==x"`).  Proved for every tree over the domain's leaf shapes (`marker_coherent_partial`). -/
+/-- **coherence at full strength** (also wanted by C18): every marker `_compact_markers` builds from a PARSED text
+is coherent — each `SingleMarker` holds the constraint its own name/operator/value/operand order denote, so
+that `__eq__` (which ignores the constraint object) never identifies leaves that validate differently.  Open in
+general: it needs the parsers' insensitivity to the white space `_CONSTRAINT_RE_PATTERN_1` drops between operator
+and value (`"== x"` vs `"==x"`); no incoherent item was found among 6300 operator × name × odd-literal
+combinations evaluated with the model.  Proved for every tree over the domain's leaf shapes
+(`marker_coherent_partial`).  The restriction to parsed texts matters: `counterexample_coherence_arbitrary_op`. -/
 def marker_coherent_full_statement : Prop :=
-  ∀ (syn : Syn) (m : M), compactRaw syn = .ok m → m.Coherent = true
+  ∀ (t : String) (syn : Syn) (m : M), parseText t = .ok syn → compactRaw syn = .ok m → m.Coherent = true
 
 theorem marker_coherent_partial (E : Env) (syn : Syn) (m : M) (h : compactRaw syn = .ok m)
     (hd : SynInDomain E syn) : m.Coherent = true :=
   (compact_agree E syn m h (syn_inDomain E syn hd).2).1
+
+/-- **over arbitrary syntax trees coherence is FALSE**: an item whose operator is not one of the grammar's, e.g.
+`python_version ~ "3.8"` (the constructor call `SingleMarker("python_version", "~3.8")`), is stored with the
+default operator `==` and the value `~3.8`, holding the tilde range `>=3.8,<3.9`; its own operator/value text
+`==~3.8` does not parse.  (Not reachable through `parse_marker`: `~` is no MARKER_OP.) -/
+theorem counterexample_coherence_arbitrary_op :
+    ∃ m, compactRaw (.one (.item "python_version" "~" "3.8" false)) = .ok m ∧ m.Coherent = false := by
+  have hc : itemCoherent "python_version" "~" "3.8" false = false := by decide +kernel
+  cases hs : mkSingle "python_version" (itemConstraintString "~" "3.8" false) false with
+  | error e => simp [itemCoherent, hs] at hc
+  | ok s =>
+    refine ⟨.union [.leaf (.single s)], ?_, ?_⟩
+    · simp [compactRaw, compactSubMarkers, compactGroups, compactAtom, hs, bind, Except.bind, pure, Except.pure,
+        mkUnion, flattenMarkers, flattenAux, groupMarker, M.mem]
+    · simp only [itemCoherent, hs] at hc
+      simp [M.Coherent, M.CoherentL, hc]
 
 /-- the composition at full strength -/
 def parse_eval_agree_full_statement : Prop :=
